@@ -36,7 +36,8 @@ def violation(job, obs):
 
 
 def run(ck: vlib.Check):
-    ck.rule = ("every file-writing entry point x destination {absent, existing file, existing EMPTY file, symlink to a file, same path as the source} x "
+    ck.rule = ("every file-writing entry point x destination {absent, existing file, existing EMPTY file, symlink to a file, same path as the source, "
+               "a path through a symlinked directory and '..' whose textual collapse names another existing file, a name with glob characters} x "
                "overwrite flag {default, False, True}, real files and the real StormLib, file hashes before/after; "
                "plus, for the refusing cases, every fault point before the guard. Exhaustive over this finite grid. "
                "Distinct = distinct (entry point, destination state, flag).")
@@ -51,7 +52,7 @@ def run(ck: vlib.Check):
         props_ok = built and ck.check_props("props/C15.v")
     jobs = []
     for ep in EPS:
-        for dst in ("absent", "existing", "empty", "symlink", "same"):
+        for dst in ("absent", "existing", "empty", "symlink", "same", "dotdot", "brackets"):
             if dst == "same" and ep in (0,):
                 continue
             for ow in ("default", False, True):
